@@ -80,7 +80,7 @@ func run(c *lib.Ctx) error {
 	}
 	c.Set("rule", "G: a replayed schedule counts when it contains a late delivery; V: a recorded run counts when a late notification was received, a sweep case when the text has at least two segments; hashed after projection")
 	rng := rand.New(rand.NewSource(c.Seed))
-	sem := make(chan struct{}, c.Pick(5, 6)) // concurrent TLC processes
+	sem := make(chan struct{}, 4) // at most 4 TLC processes of this check at any time
 	tlc := func(name string, r lib.TLCRun) (*lib.TLCResult, error) {
 		sem <- struct{}{}
 		defer func() { <-sem }()
@@ -248,7 +248,14 @@ func body(c *lib.Ctx, dir string, rng *rand.Rand, sem chan struct{}, tlc func(st
 		bad := sweepCase{Cfg: "selftest", Code: toInts("ls | cat"), Segs: [][]int{toInts("ls"), toInts(" "), toInts("|"), toInts(" "), toInts("cbt")}}
 		bad2 := sweepCase{Cfg: "selftest", Code: toInts("ls | cat"), Segs: [][]int{toInts("ls"), toInts("|"), toInts(" "), toInts("cat")}}
 		all := append([]sweepCase{bad, bad2}, cases...)
-		res, err := lib.Judge(c, "JudgeRegions", dir, "JudgeRegions", all, c.Pick(1, 4), 12*time.Minute)
+		par := c.Pick(1, 2)
+		for i := 0; i < par; i++ {
+			sem <- struct{}{}
+		}
+		res, err := lib.Judge(c, "JudgeRegions", dir, "JudgeRegions", all, par, 14*time.Minute)
+		for i := 0; i < par; i++ {
+			<-sem
+		}
 		if err != nil {
 			return err
 		}
@@ -446,9 +453,9 @@ func body(c *lib.Ctx, dir string, rng *rand.Rand, sem chan struct{}, tlc func(st
 	}
 	// (b) vacuity guard: a schedule with one prescribed text changed must be reported by the replay
 	selfDone := false
-	nDeliver, nSteps := 0, 0
+	nDeliver, nSteps, nText := 0, 0, 0
 	for idx, st := range schedules {
-		gc := &gCase{Kind: "g", Steps: st, Codes: pl.concretise(rng, 4, cmdIDs)}
+		gc := (&gCase{Kind: "g", Steps: st, Codes: pl.concretise(rng, 4, cmdIDs)}).withBytes()
 		mm, err := replayG(gc)
 		if err != nil {
 			return fmt.Errorf("schedule %d: %w", idx, err)
@@ -472,7 +479,10 @@ func body(c *lib.Ctx, dir string, rng *rand.Rand, sem chan struct{}, tlc func(st
 		}
 		if mm != nil {
 			c.Reject(mm.key, "replay of a model schedule on the real Highlighter: "+mm.what, gc)
-			if c.Violations() >= 5 {
+			if mm.key == "g:text" {
+				nText++
+			}
+			if nText >= 3 || c.Violations() >= 12 {
 				break
 			}
 			continue
@@ -599,6 +609,7 @@ func replay(c *lib.Ctx, dir string) error {
 		if err := json.Unmarshal(f.Case, &gc); err != nil {
 			return lib.Infra("%v", err)
 		}
+		gc.withBytes()
 		if kind.Kind == "candidate" {
 			mm, err := replayCandidate(&gc)
 			if err != nil {
